@@ -115,11 +115,13 @@ impl Semaphore {
 #[verifier::external_body]
 pub async fn acquire_many_owned(ctx: &Ctx, s: Arc<Semaphore>, n: u32) -> (r: Result<OwnedSemaphorePermit, Canceled>)
     ensures r matches Ok(p) ==> p.n() == n && p.of() == s.id() { unimplemented!() }
-// W-ghost: the size-permit acquisition of the DATA split loop also counts the bytes this iteration has paid for ...
+// W-ghost: an acquisition from the SIZE pool (ghost id `size_id`) also counts the bytes this iteration has paid for; one from any other pool does not ...
 #[verifier::external_body]
-pub async fn acquire_many_owned_size(ctx: &Ctx, s: Arc<Semaphore>, n: u32, held: &mut Ghost<int>) -> (r: Result<OwnedSemaphorePermit, Canceled>)
-    ensures r matches Ok(p) ==> p.n() == n && p.of() == s.id() && final(held)@ == old(held)@ + n,
+pub async fn acquire_many_owned_g(ctx: &Ctx, s: Arc<Semaphore>, n: u32, Ghost(size_id): Ghost<int>, held: &mut Ghost<int>) -> (r: Result<OwnedSemaphorePermit, Canceled>)
+    ensures r matches Ok(p) ==> p.n() == n && p.of() == s.id() && final(held)@ == old(held)@ + (if s.id() == size_id { n as int } else { 0 }),
             r.is_err() ==> final(held)@ == old(held)@ { unimplemented!() }
+// R-std: std::cmp::max on the u64 configuration fields (A1)
+#[verifier::external_body] pub fn verif_max_u64(a: u64, b: u64) -> (r: u64) ensures r == (if a >= b { a } else { b }) { std::cmp::max(a, b) }
 // ... and a receive buffer may be allocated (and filled from the transport) only for bytes that are already paid for: "never buffers more
 // than its configured limits no matter how fast the peer sends"
 pub fn buffer_new_held(n: usize, held: &Ghost<int>) -> (r: Buffer)
@@ -165,14 +167,15 @@ def add_dispatch(U):
          subs=[("loop {\n            let mut header", "let ghost verif_cs = count_sem.id(); let ghost verif_ss = size_sem.id();   /* W-ghost */\n"
                 "        // W-ghost: the pools that bound the unconsumed frames / bytes hold exactly the CONFIGURED limits\n"
                 "        assert(count_sem.capacity() == self.cfg.read_frame_count as usize && size_sem.capacity() == self.cfg.read_buffer_size as usize);\n"
-                "        loop {\n            let mut header"),
+                "        loop { let mut verif_held: Ghost<int> = Ghost(0);   /* W-ghost */\n            let mut header"),
                ("sync::Semaphore::new(", "Semaphore::new(", None),
                ("io::read_exact(ctx, &mut read, &mut header)", "io_read_exact_2(ctx, &mut read, &mut header)   /* R-std */"),
                ("io::read_exact(ctx, &mut read, &mut length)", "io_read_exact_2(ctx, &mut read, &mut length)   /* R-std */"),
                ("io::read_exact(ctx, &mut read, data.as_mut_capacity())", "io_read_exact(ctx, &mut read, data.as_mut_capacity())"),
                ("while length > 0 {", "while length > 0 { let mut verif_held: Ghost<int> = Ghost(0);   /* W-ghost: bytes paid for in this iteration */"),
-               ("sync::acquire_many_owned(ctx, size_sem.clone(), $N)", "acquire_many_owned_size(ctx, size_sem.clone(), $N, &mut verif_held)   /* W-ghost */"),
-               ("sync::acquire_many_owned(", "acquire_many_owned(", None),
+               # (the semaphore stays the repository's expression: a hole, so that taking a permit from the WRONG pool is decided, not a lost anchor)
+               ("sync::acquire_many_owned(ctx, $S, $N)", "acquire_many_owned_g(ctx, $S, $N, Ghost(verif_ss), &mut verif_held)   /* W-ghost */", None),
+               ("std::cmp::max(", "verif_max_u64(   /* R-std */", None),
                ("u16::from_le_bytes(length)", "verif_u16_from_le(length)   /* R-std */"),
                ("std::cmp::min(", "verif_min_usize("),
                ("bytes::Buffer::new($N)", "buffer_new_held($N, &verif_held)   /* W-ghost */"),
